@@ -20,11 +20,12 @@ type input struct {
 	UseStdin bool
 	Stdin    string
 	// generator's knowledge (oracle), when it has any
-	HasExpect   bool
-	ExpectPos   posT
-	ExpectChain []posT
-	ExpectCls   int
-	Fault       string
+	HasExpect    bool
+	ExpectAccept bool // the generator knows the configuration must be read through
+	ExpectPos    posT
+	ExpectChain  []posT
+	ExpectCls    int
+	Fault        string
 }
 
 type layouter struct {
